@@ -60,7 +60,9 @@ fn ident_tokens(s: &str) -> Vec<(usize, usize)> {
             i += 1;
             while i < b.len() && b[i] != q {
                 if b[i] == b'\\' {
-                    i += 1;
+                    // an escaped character (\`, \$, \\) is plain text
+                    i += 2;
+                    continue;
                 }
                 if q == b'`' && b[i] == b'$' && i + 1 < b.len() && b[i + 1] == b'{' {
                     // template substitution: scan identifiers inside
